@@ -136,6 +136,8 @@ theorem act_fr (s : State) (g : Nat) (a : Act) (hl : localAct s g a = true) : Fr
   | destroy e => simp [localAct] at hl
   | cond f c => simp [localAct] at hl
   | enableF e => simp [localAct] at hl
+  | reborn e => simp [localAct] at hl
+  | ctlL en e => simp [localAct] at hl
   | close f => simp [localAct] at hl
   | kill f => simp [localAct] at hl
 
@@ -242,6 +244,8 @@ theorem act_sim {f : Nat} {s t : State} (h : SimF f s t) (a : Act) (hl : localAc
   | init e g m o => simp [localAct] at hl
   | cond g c => simp [localAct] at hl
   | enableF e => simp [localAct] at hl
+  | reborn e => simp [localAct] at hl
+  | ctlL en e => simp [localAct] at hl
   | destroy e => simp [localAct] at hl
   | close g => simp [localAct] at hl
   | kill g => simp [localAct] at hl
@@ -299,6 +303,8 @@ theorem cbKeys_act (s : State) (f : Nat) (a : Act) (hl : localAct s f a = true) 
   | destroy e => simp [localAct] at hl
   | cond g c => simp [localAct] at hl
   | enableF e => simp [localAct] at hl
+  | reborn e => simp [localAct] at hl
+  | ctlL en e => simp [localAct] at hl
   | close g => simp [localAct] at hl
   | kill g => simp [localAct] at hl
 
@@ -581,6 +587,11 @@ theorem cbKeys_condFd (s : State) (f c : Nat) : cbKeys (condFd s f c).1 = cbKeys
 theorem cbKeys_enableEvF (s : State) (e : Nat) : cbKeys (enableEvF s e).1 = cbKeys s :=
   (cbKeys_of_log (s := (enableEv (refuseAdd s (s.evs e).fd) e).1) rfl).trans (cbKeys_enableEv _ e)
 
+theorem cbKeys_rebornEv (s : State) (e : Nat) : cbKeys (rebornEv s e).1 = cbKeys s := by
+  unfold rebornEv; split
+  · rfl
+  · exact (cbKeys_of_log (by simp)).trans (cbKeys_destroyEv s e)
+
 theorem cbKeys_act_any (s : State) (a : Act) : cbKeys (act s a).1 = cbKeys s := by
   cases a with
   | init e f m o => exact cbKeys_initEv s e f m o
@@ -596,6 +607,13 @@ theorem cbKeys_act_any (s : State) (a : Act) : cbKeys (act s a).1 = cbKeys s := 
   | post k => rfl
   | cond f c => exact cbKeys_condFd s f c
   | enableF e => exact cbKeys_enableEvF s e
+  | reborn e => exact cbKeys_rebornEv s e
+  | ctlL en e =>
+    show cbKeys (ctlLEv s en e).1 = cbKeys s
+    unfold ctlLEv
+    cases en
+    · exact (cbKeys_of_log (s := (disableEv s e).1) rfl).trans (cbKeys_disableEv s e)
+    · exact (cbKeys_of_log (s := (enableEv s e).1) rfl).trans (cbKeys_enableEv s e)
 
 theorem cbKeys_runScript_any (sc : List Act) : ∀ s : State, cbKeys (runScript s sc) = cbKeys s := by
   induction sc with
